@@ -16,6 +16,11 @@ Example C34_methods_listed : pq_methods_listed = true.
 Proof. reflexivity. Qed.
 Example C34_modes_exclusive : forall o, pq_mode o = LockExclusive.
 Proof. destruct o; reflexivity. Qed.
+(* the shape the linearizability theorem assumes, read from the source: each locking method is
+   ONE critical section (Lock first, defer Unlock next, no other lock call), and the lock-free
+   PopWithTimer touches no field that any method writes *)
+Example C34_one_critical_section : forallb snd pq_shapes = true.
+Proof. reflexivity. Qed.
 
 (* ---- sequential behaviour: for every sequence of operations the Tier A model (the array of
    container/heap with sift-up/sift-down, Item.index, the txs map) returns what the queue
